@@ -90,6 +90,14 @@ var (
 		Reason:  wamp.ErrSystemShutdown,
 		Details: wamp.Dict{},
 	}
+
+	// abortedGoodbye ends a session that the broker or dealer has sent ABORT
+	// for a protocol violation. The session's own message handler then removes
+	// the session and closes its peer; nothing more is sent to the client.
+	abortedGoodbye = &wamp.Goodbye{ //nolint:gochecknoglobals
+		Reason:  wamp.ErrProtocolViolation,
+		Details: wamp.Dict{},
+	}
 )
 
 // newRealm creates a new realm with the given RealmConfig, broker and dealer.
@@ -479,6 +487,10 @@ func (r *realm) handleInboundMessages(sess *wamp.Session) (bool, bool, error) {
 		case <-recvDone:
 			goodbye := sess.Goodbye()
 			switch goodbye {
+			case abortedGoodbye:
+				// ABORT was already sent; leave the realm like a session whose
+				// transport was lost.
+				return false, false, nil
 			case shutdownGoodbye, wamp.NoGoodbye:
 				if r.debug {
 					r.log.Printf("Stop session %s: system shutdown", sess)
